@@ -176,6 +176,9 @@ func main() {
 		}
 		if c.Kind == "options" {
 			combos = c.Combos
+			if len(c.StartTypes) > 0 {
+				startTypes = c.StartTypes
+			}
 			return nil
 		}
 		cases = append(cases, c)
@@ -438,6 +441,9 @@ func main() {
 		info["stopok"] = res.stopOK
 		info["nevals"], info["nhooks"], info["ncons"] = r.nEval, r.nHook, r.nCons
 		info["tail"] = r.tail
+		if r.xtype != "" {
+			info["xtype"] = r.xtype
+		}
 		if res.pt != nil {
 			info["returned"] = res.pt
 		}
